@@ -485,6 +485,10 @@ def run_stepwise_case(case):
                 text + "rules called: %r, expected exactly rule %d once" % (
                     [c[2] for c in calls], want_index))
         _, _, index, args, kwargs = calls[0]
+        if index == "stray":
+            return "stepwise:rule-of-another-controller" + sel, (
+                text + "a rule of an earlier controller built from the same base rule was "
+                "applied, expected rule %d" % want_index)
         if index != want_index:
             return "stepwise:wrong-rule" + sel, text + "rule %d%s was applied, expected rule %d%s" % (
                 index, " (threshold %r)" % thresholds[index - 1] if index else " (base)",
